@@ -14,6 +14,41 @@ BUILT = {
     text="Every string of up to N atoms over the delimiter characters, their prefixes, the delimiters and one filler is tokenized by the real tokenizer and its tag spans are compared with the textbook scan for delimiter pairs with and without self-overlap; partial matches before and inside tags are exactly what the alphabet generates. Exhaustive within the bound.",
     note="Trusted: the 30-line reference scan built on str::find. Bounded by atoms per string and the delimiter pool.",
     design="3/C08"),
+  "C01": dict(
+    technique="bounded-exhaustive explicit-state enumeration (AST trees, line sequences, atom strings x delimiter pool x contexts) of clean/list/list_all under catch_unwind with overflow checks",
+    text="Every document of three exhaustive spaces (all G-ast trees up to a line budget, all sequences of up to N whole lines over a line alphabet with stray/crossing/unwrap tags, all strings of up to N atoms over characters, delimiters and macro tags incl. blank-body and malformed tags), under each delimiter spelling and surrounding context (multi-byte tail, leading line break, pending wrapper, repetition, 200-line prefix), is passed to clean, list and list_all (pretty and JSON) of the real library built with overflow checks; each call must return and JSON must parse.",
+    note="Trusted: catch_unwind + panic hook, serde_json's parser. Bounded by document size (nesting depth <= explored depth; stack exhaustion at very deep nesting is outside the bound) and by the atom alphabets and delimiter pool.",
+    design="3/C01"),
+  "C02": dict(
+    technique="bounded-exhaustive explicit-state enumeration of documents; exact three-class alignment DP of clean's output against reference-model extents",
+    text="On every document of the same three exhaustive spaces in which the reference pipeline finds a ready element, an exact dynamic-programming alignment decides whether the output can be obtained from the input by deleting only characters inside ready extents or whitespace while keeping every other character in order. The reference extents are validated against ground truth known by construction on every generated AST document.",
+    note="Trusted: the reference pipeline (tokenize/tag/pair/ready/extents, ~300 lines, validated on each AST document against by-construction truth) and the bit-parallel alignment (unit-tested). Bounded by document size and alphabets.",
+    design="3/C02"),
+  "C03": dict(
+    technique="bounded-exhaustive explicit-state enumeration of documents; exact alignment DP requiring every character of every ready extent to be deleted",
+    text="Same exploration as C02 with the dual oracle: there must be an alignment in which every character of the union of ready extents is deleted, and the non-whitespace text of the output must equal input minus extents; nesting in pending/skip/unregistered/ready parents and unwrap bodies is part of the enumerated trees.",
+    note="Same trusted base as C02.",
+    design="3/C03"),
+  "C04": dict(
+    technique="bounded-exhaustive explicit-state enumeration of documents without ready elements; oracle clean(x)==x byte for byte",
+    text="Every document of the three spaces in which the reference finds nothing ready (pending, skip, unregistered, malformed, unclosed, stray, un-unwrappable, plus every junk string of atoms) must be returned unchanged; this is the largest class of the junk spaces and includes every whitespace layout over the atoms around pending elements.",
+    note="Trusted: the reference readiness evaluation. Bounded by document size and alphabets.",
+    design="3/C04"),
+  "C09": dict(
+    technique="exhaustive enumeration of the tag grammar (finite product of pools) through the real tokenizer and element parser; differential clean() for opaque values",
+    text="Every tag of the stated grammar with 0-2 attributes over the full pools (and 3-4 attributes over reduced pools) is rendered, tokenized and parsed by the real code and compared with the generating term; a second exhaustive family checks that an adversarial quoted value next to real attributes never changes what clean does.",
+    note="Trusted: the generator's bookkeeping of the expected term. Bare '*' words produced by the ' \\n * ' separator are ignored on both sides. Bounded by the pools.",
+    design="3/C09"),
+  "C10": dict(
+    technique="bounded-exhaustive enumeration of tag operation sequences through the real tokenizer+parser vs. explicit-stack reference model",
+    text="Every sequence of up to N tag operations {open a, open b, close a, close b, close z, text} (all interleavings incl. same-name nesting, crossing and stray tags) is parsed by the real parser; the flattened (open, close, parent) triples and the in-order token coverage must equal the explicit-stack model.",
+    note="Trusted: the 30-line stack model. Bounded by sequence length and two tag names plus an unknown closer.",
+    design="3/C10"),
+  "C14": dict(
+    technique="bounded-exhaustive explicit-state enumeration of whitespace-rich documents; in-order verbatim substring oracle on clean's output",
+    text="Same exploration as C02 with whitespace-rich filler (interior double spaces, trailing spaces, blank and indented lines): every maximal surviving stretch, trimmed, must occur verbatim and in order in the output (line by line inside unwrapped bodies).",
+    note="Trusted: reference extents (as C02) and a greedy left-to-right substring search (sound: earliest match can only help).",
+    design="3/C14"),
 }
 
 PENDING_REASON = "check designed (DESIGN.md section 3) but its engine is not built yet in this revision; not claimed until it runs"
